@@ -34,6 +34,10 @@ impl Duration {
     { Duration { nanos: s as u128 * 1_000_000_000 } }
     pub fn as_millis(&self) -> (r: u128) ensures r == self.nanos / 1_000_000
     { self.nanos / 1_000_000 }
+    pub fn subsec_millis(&self) -> (r: u32) ensures r == (self.nanos % 1_000_000_000) / 1_000_000
+    { ((self.nanos % 1_000_000_000) / 1_000_000) as u32 }
+    pub fn as_secs(&self) -> (r: u64) requires self.nanos / 1_000_000_000 <= u64::MAX ensures r == self.nanos / 1_000_000_000
+    { (self.nanos / 1_000_000_000) as u64 }
 }
 #[derive(Clone, Copy, Debug, PartialEq, Eq, Structural)]
 pub struct Instant { pub t: u128 }
